@@ -6,6 +6,7 @@ import (
 	"fmt"
 	"go/types"
 	"os"
+	"os/exec"
 	"path/filepath"
 	"runtime/debug"
 	"sort"
@@ -45,6 +46,7 @@ type config struct {
 	MaxInstr    int64
 	PermuteMaps int
 	Explore     bool
+	Race        bool
 	PreemptMax  int
 	Solver      string
 	StopOnVio   bool
@@ -93,6 +95,42 @@ func buildOverlay(repo, dir string) (map[string][]byte, error) {
 	return ov, err
 }
 
+// pureGoFallbacks: libraries whose hot functions are assembly on amd64 ship a pure-Go file with the
+// same functions for other platforms; for analysis the file that declares the assembly stubs is
+// overlaid with that pure-Go file (build constraints stripped), so the bodies are interpretable.
+// Same codec, different implementation of its inner loops: stated in DESIGN.md.
+func pureGoFallbacks(repo string, ov map[string][]byte) {
+	for _, fb := range []struct {
+		mod   string
+		pairs [][2]string
+	}{
+		{"github.com/golang/snappy", [][2]string{{"encode_asm.go", "encode_other.go"}, {"decode_asm.go", "decode_other.go"}}},
+	} {
+		cmd := exec.Command("go", "list", "-m", "-f", "{{.Dir}}", fb.mod)
+		cmd.Dir = repo
+		cmd.Env = append(os.Environ(), "GOFLAGS=-mod=mod", "GOPROXY=off", "GOSUMDB=off", "GOTOOLCHAIN=local")
+		out, err := cmd.Output()
+		if err != nil {
+			continue
+		}
+		dir := strings.TrimSpace(string(out))
+		for _, p := range fb.pairs {
+			b, err := os.ReadFile(filepath.Join(dir, p[1]))
+			if err != nil {
+				continue
+			}
+			var lines []string
+			for _, l := range strings.Split(string(b), "\n") {
+				if strings.HasPrefix(l, "// +build") || strings.HasPrefix(l, "//go:build") {
+					continue
+				}
+				lines = append(lines, l)
+			}
+			ov[filepath.Join(dir, p[0])] = []byte(strings.Join(lines, "\n"))
+		}
+	}
+}
+
 func loadProgram(repo, overlayDir string, patterns []string) (*engine, error) {
 	t0 := time.Now()
 	ov, err := buildOverlay(repo, overlayDir)
@@ -105,6 +143,7 @@ func loadProgram(repo, overlayDir string, patterns []string) (*engine, error) {
 		Overlay: ov,
 		Env:     append(os.Environ(), "GOFLAGS=-mod=mod", "GOPROXY=off", "GOSUMDB=off", "GOTOOLCHAIN=local"),
 	}
+	pureGoFallbacks(repo, ov)
 	initial, err := packages.Load(cfg, patterns...)
 	if err != nil {
 		return nil, err
@@ -115,6 +154,8 @@ func loadProgram(repo, overlayDir string, patterns []string) (*engine, error) {
 			if strings.HasPrefix(p.PkgPath, modPath) {
 				fmt.Fprintf(os.Stderr, "load error: %s: %v\n", p.PkgPath, e)
 				nerr++
+			} else if os.Getenv("GSE_LOADDEBUG") != "" {
+				fmt.Fprintf(os.Stderr, "load error (dependency): %s: %v\n", p.PkgPath, e)
 			}
 		}
 	})
@@ -132,7 +173,7 @@ func loadProgram(repo, overlayDir string, patterns []string) (*engine, error) {
 		modPath: true, "container/list": true, "container/heap": true, "errors": true, "internal/errorlite": true,
 		"sort": true, "slices": true, "strings": true, "bytes": true, "unicode/utf8": true, "unicode": true, "strconv": true,
 		"encoding/hex": true, "math/bits": true, "internal/itoa": true, "internal/stringslite": true, "cmp": true,
-		"github.com/patrickmn/go-cache": true, "path": true, "path/filepath": false, "encoding/base64": true,
+		"github.com/patrickmn/go-cache": true, "github.com/golang/snappy": true, "path": true, "path/filepath": false, "encoding/base64": true,
 		"internal/byteorder": true, "iter": true, "github.com/golang/groupcache/lru": true, "context": false,
 		"time": true, "github.com/syndtr/goleveldb/leveldb/comparer": true, "github.com/syndtr/goleveldb/leveldb/util": true,
 	}
@@ -268,28 +309,28 @@ func (m *machine) knownClassFor(label string) string {
 // ---------------------------------------------------------------- exploration
 
 type harnessReport struct {
-	Harness      string            `json:"harness"`
-	Paths        int               `json:"paths"`
-	Outcomes     map[string]int    `json:"outcomes"`
-	Decisions    int64             `json:"decisions"`
-	Exhaustive   bool              `json:"exhaustive"`
-	Violations   []violation       `json:"violations"`
-	Covers       map[string]bool   `json:"covers"`
-	Asserts      map[string][2]int `json:"asserts"` // label -> [discharged, trivial]
-	Nontrivial   int               `json:"nontrivial_paths"`
-	Queries      int               `json:"queries"`
-	SolverSecs   float64           `json:"solver_s"`
-	Unknowns     int               `json:"unknowns"`
-	Fallbacks    int               `json:"portfolio_fallbacks"`
-	FallbackSaved int              `json:"portfolio_decided"`
-	SolverErrors []string          `json:"solver_errors"`
-	Instr        int64             `json:"instructions"`
-	Funcs        map[string]int64  `json:"functions"`
-	WallSecs     float64           `json:"wall_s"`
-	Problems     []string          `json:"problems"`
-	Samples      []pathSample      `json:"samples"`
-	Observes     [][]string        `json:"observes,omitempty"`
-	SampleInputs []sampleInput     `json:"sample_inputs,omitempty"`
+	Harness       string            `json:"harness"`
+	Paths         int               `json:"paths"`
+	Outcomes      map[string]int    `json:"outcomes"`
+	Decisions     int64             `json:"decisions"`
+	Exhaustive    bool              `json:"exhaustive"`
+	Violations    []violation       `json:"violations"`
+	Covers        map[string]bool   `json:"covers"`
+	Asserts       map[string][2]int `json:"asserts"` // label -> [discharged, trivial]
+	Nontrivial    int               `json:"nontrivial_paths"`
+	Queries       int               `json:"queries"`
+	SolverSecs    float64           `json:"solver_s"`
+	Unknowns      int               `json:"unknowns"`
+	Fallbacks     int               `json:"portfolio_fallbacks"`
+	FallbackSaved int               `json:"portfolio_decided"`
+	SolverErrors  []string          `json:"solver_errors"`
+	Instr         int64             `json:"instructions"`
+	Funcs         map[string]int64  `json:"functions"`
+	WallSecs      float64           `json:"wall_s"`
+	Problems      []string          `json:"problems"`
+	Samples       []pathSample      `json:"samples"`
+	Observes      [][]string        `json:"observes,omitempty"`
+	SampleInputs  []sampleInput     `json:"sample_inputs,omitempty"`
 }
 
 type sampleInput struct {
@@ -516,6 +557,7 @@ func main() {
 	maxInstr := flag.Int64("maxinstr", 50_000_000, "instruction budget per path")
 	permute := flag.Int("permute-maps", 0, "explore iteration orders of maps with up to N entries")
 	explore := flag.Bool("explore-sched", false, "explore goroutine interleavings")
+	raceFlag := flag.Bool("race", false, "happens-before monitor for Go maps (concurrent map read/write)")
 	preempt := flag.Int("preempt", 1000, "preemption bound in exploring mode")
 	solver := flag.String("solver", "z3", "z3 | z3-new | cvc5")
 	trace := flag.Bool("trace", false, "trace instructions")
@@ -545,7 +587,7 @@ func main() {
 	}
 	e.trace = *trace
 	e.cfg = config{Workers: *workers, TimeoutMs: *timeout, Unwind: *unwind, SplitMax: *split, MaxPaths: *maxPaths, MaxInstr: *maxInstr,
-		PermuteMaps: *permute, Explore: *explore, PreemptMax: *preempt, Solver: *solver, StopOnVio: *stopVio, Deadline: *deadline, Samples: *samples, Seed: *seed}
+		PermuteMaps: *permute, Explore: *explore, Race: *raceFlag, PreemptMax: *preempt, Solver: *solver, StopOnVio: *stopVio, Deadline: *deadline, Samples: *samples, Seed: *seed}
 
 	type outT struct {
 		LoadSecs float64          `json:"load_s"`
